@@ -69,12 +69,13 @@ type Scenario struct {
 	ShutKind   string `json:"shut_kind"`                // plain | ctx
 	ShutAfter  int    `json:"shut_after"`
 	CtxMs      int    `json:"ctx_ms,omitempty"`
-	Transient  []int  `json:"transient,omitempty"`  // these accept / datagram-read attempts fail with a temporary, non-timeout error
-	CloseErr   bool   `json:"close_err,omitempty"`  // tcp / tls: closing the listener reports an error (it is closed all the same)
-	Listen     bool   `json:"listen,omitempty"`     // the server is started with ListenAndServe (socket seam of the instrumented build) instead of ActivateAndServe
-	ReuseOpts  int    `json:"reuse_opts,omitempty"` // ListenAndServe: bit 0 ReusePort, bit 1 ReuseAddr
-	ShutB      bool   `json:"shutdown_b,omitempty"` // a second, concurrent Shutdown
-	Shut3      bool   `json:"shutdown_3,omitempty"` // a Shutdown after the first has returned
+	Transient  []int  `json:"transient,omitempty"`      // these accept / datagram-read attempts fail with a temporary, non-timeout error
+	OwnErr     bool   `json:"own_closed_err,omitempty"` // tcp / tls: Accept on the closed listener fails with an error of the listener's own, not net.ErrClosed
+	CloseErr   bool   `json:"close_err,omitempty"`      // tcp / tls: closing the listener reports an error (it is closed all the same)
+	Listen     bool   `json:"listen,omitempty"`         // the server is started with ListenAndServe (socket seam of the instrumented build) instead of ActivateAndServe
+	ReuseOpts  int    `json:"reuse_opts,omitempty"`     // ListenAndServe: bit 0 ReusePort, bit 1 ReuseAddr
+	ShutB      bool   `json:"shutdown_b,omitempty"`     // a second, concurrent Shutdown
+	Shut3      bool   `json:"shutdown_3,omitempty"`     // a Shutdown after the first has returned
 }
 
 func Gen(seed uint64, tier string) any {
@@ -141,6 +142,7 @@ func Gen(seed uint64, tier string) any {
 		sc.FailStart = core.Pick(r, "bogus", "tcp-tls", "sockopt", "noreader", "inuse")
 	}
 	sc.CloseErr = sc.Transport != "udp" && core.Chance(r, 12)
+	sc.OwnErr = sc.Transport != "udp" && core.Chance(r, 25)
 	sc.Listen = core.Chance(r, 40)
 	if sc.Listen {
 		sc.ReuseOpts = r.IntN(4)
@@ -225,6 +227,7 @@ func Shrink(x any) []any {
 	flag(func(n *Scenario) *bool { return &n.Spare })
 	flag(func(n *Scenario) *bool { return &n.Listen })
 	flag(func(n *Scenario) *bool { return &n.CloseErr })
+	flag(func(n *Scenario) *bool { return &n.OwnErr })
 	if sc.FailStart != "" {
 		n := cp()
 		n.FailStart = ""
@@ -1018,6 +1021,9 @@ func runIn(sc *Scenario, res *core.Result, verbose bool) {
 		x.pc.Transient = sc.Transient
 	} else {
 		x.l.Transient = sc.Transient
+	}
+	if x.l != nil {
+		x.l.OwnClosedErr = sc.OwnErr
 	}
 	for ci, c := range sc.Clients {
 		for oi, op := range c.Ops {
